@@ -2,8 +2,6 @@
 
 package rjson
 
-import "fmt"
-
 // Native definitions of the harness intrinsics, used to replay a solver model
 // against the real build: nondeterministic choices are read from vScript in
 // the order the executor made them.
@@ -13,13 +11,17 @@ var (
 	vCursor   int
 	vFailures []string
 	vReached  []string
+	vExhausted int
 )
 
 type vAssumeFailed struct{}
 
 func vNext(name string) int64 {
 	if vCursor >= len(vScript) {
-		panic(fmt.Sprintf("verif replay: script exhausted at %s", name))
+		// a sample taken in the middle of a path has no recorded choices for the
+		// rest of it: any value is a legitimate completion
+		vExhausted++
+		return 0
 	}
 	v := vScript[vCursor]
 	vCursor++
@@ -46,4 +48,5 @@ func vReset(script []int64) {
 	vCursor = 0
 	vFailures = nil
 	vReached = nil
+	vExhausted = 0
 }
